@@ -60,6 +60,12 @@ class References:
         l = self._gfa._search_link(from_segment, to_segment, cigar)
         if l is not None and l.is_compatible_complement(from_segment, to_segment, cigar):
           orient = "-"
+        if l is not None and l.virtual and \
+            gfapy.is_placeholder(l.overlap) and not gfapy.is_placeholder(cigar):
+          # the placeholder link stands for the link which this step specifies
+          l._set_existing_field("overlap",
+              cigar.complement() if orient == "-" else cigar,
+              set_reference = True)
       if l is None:
         if self._gfa._segments_first_order:
           raise gfapy.NotFoundError("Path: {}\n".format(self)+
